@@ -7,9 +7,11 @@ CONSTANTS
   Strips = {FALSE, TRUE}
   Shifts = {0, 1}
   Mods = {"all", "first"}
-  Probs = {"P1", "P2", "P3", "P4", "P5", "P6"}
+  Probs = {"P1", "P2", "P3", "P4", "P5", "P6", "P7"}
   Pads = {0, 35}
   Padfs = {0, 35}
   Showdups = {FALSE, TRUE}
+  FaultOps = {"list", "create", "delete", "summary"}
+  FaultKs = {1, 2}
 INVARIANTS EmitCase
 CHECK_DEADLOCK FALSE
